@@ -9,9 +9,11 @@ One == {NoneV}
 Bind_SetupPlan == << [op |-> "new", tape |-> 1], [op |-> "new", tape |-> 3],
                   [op |-> "parts", seed |-> 1, key |-> 2, fake |-> 1, mode |-> "direct"] >>
 Bind_RegPlan == << Plan(1, 11, 1, Tok("any"), Tok("any"), 0) >>
-Ids == {NoneV, A(31), A(32)}
-Bind_RegIdus == Ids
-Bind_RegIdss == Ids \cup {Tok("spk")}
+\* identities: absent, explicit EMPTY (a value different from absent), two names, and the
+\* explicit spelling of the default public key
+Ids == {NoneV, A(0), A(31), A(32)}
+Bind_RegIdus == {NoneV, A(0), A(31)}
+Bind_RegIdss == {NoneV, A(0), A(31), Tok("spk")}
 Bind_RegKsfs == {0}
 Bind_CliPw   == [c \in CliIds |-> <<A(1), A(1)>>]
 Bind_SrvSetups == {1, 2, 3}
